@@ -42,6 +42,7 @@ type Contract struct {
 	Pure       bool     // ensures clauses define the result as a function of the arguments (no heap effect)
 	Assigns    []string // informational; the effective frame is the inferred mod set
 	Uses       []string // named axioms this function's proof may use
+	Binds      map[string]string // captured function variable -> function key it holds (self-recursive closures)
 	DynCallees []string // possible targets of calls through non-operator function values in this function
 	Trusted    bool     // contract is assumed at call sites but the body is not verified (listed as assumption)
 	Line       int
@@ -75,7 +76,7 @@ type Spec struct {
 }
 
 var clauseKeywords = map[string]bool{"func": true, "requires": true, "ensures": true, "loop": true, "invariant": true,
-	"decreases": true, "lemma": true, "macro": true, "dyncallees": true, "fieldinv": true, "uses": true, "ghost": true, "axiom": true, "inline": true, "assigns": true, "callsite": true, "storesite": true, "exit": true, "props": true, "trusted": true, "pure": true, "end": true}
+	"decreases": true, "lemma": true, "macro": true, "dyncallees": true, "fieldinv": true, "uses": true, "ghost": true, "axiom": true, "inline": true, "assigns": true, "callsite": true, "binds": true, "storesite": true, "exit": true, "props": true, "trusted": true, "pure": true, "end": true}
 
 // ParseSpec reads the //@ lines of the guarded contract file.
 func ParseSpec(lines []load.ContractLine) *Spec {
@@ -170,6 +171,15 @@ func ParseSpec(lines []load.ContractLine) *Spec {
 		case "uses":
 			if cur != nil {
 				cur.Uses = append(cur.Uses, strings.Fields(r.rest)...)
+			}
+		case "binds":
+			if f := strings.Fields(r.rest); cur != nil && len(f) == 2 {
+				if cur.Binds == nil {
+					cur.Binds = map[string]string{}
+				}
+				cur.Binds[f[0]] = f[1]
+			} else {
+				sp.Errors = append(sp.Errors, fmt.Sprintf("line %d: binds <captured variable> <function key>", r.line))
 			}
 		case "dyncallees":
 			if cur != nil {
